@@ -219,6 +219,17 @@ async fn prog_tcp(l: Log, me: usize, n: usize, v6: bool) -> turmoil::Result {
                 }
             });
         }
+        // a sink that accepts and never reads: its callers end up parked in write, and learn of a
+        // bounce of this host in whatever order the host's stream table is walked
+        {
+            let sink = TcpListener::bind((if v6 { "::" } else { "0.0.0.0" }, 81)).await?;
+            tokio::task::spawn_local(async move {
+                let mut held = vec![];
+                while let Ok((st, _)) = sink.accept().await {
+                    held.push(st);
+                }
+            });
+        }
         let mut k = 0;
         loop {
             let (mut st, from) = lst.accept().await?;
@@ -250,6 +261,25 @@ async fn prog_tcp(l: Log, me: usize, n: usize, v6: bool) -> turmoil::Result {
     }
     if n == 1 {
         return std::future::pending().await;
+    }
+    // three writers that stream into the sink of h0 until they fail
+    for j in 0..3u8 {
+        let (l4, name4) = (l.clone(), name.clone());
+        tokio::task::spawn_local(async move {
+            tokio::time::sleep(Duration::from_millis(1)).await;
+            let Ok(Ok(mut st)) = tokio::time::timeout(Duration::from_millis(10), TcpStream::connect(("h0", 81))).await else {
+                log(&l4, &name4, format!("sink writer {j}: no connection"));
+                return;
+            };
+            let mut sent = 0u32;
+            loop {
+                if let Err(e) = st.write_all(&[j]).await {
+                    log(&l4, &name4, format!("sink writer {j} failed after {sent} bytes: {}", errk(&e)));
+                    break;
+                }
+                sent += 1;
+            }
+        });
     }
     let mut round = 0u8;
     loop {
@@ -319,6 +349,29 @@ async fn prog_select(l: Log, me: usize, n: usize, v6: bool) -> turmoil::Result {
         // the choice is made observable to the other hosts too
         let t = (me + 1) % n;
         let _ = sock.try_send_to(&fp.to_le_bytes()[..4], (format!("h{t}").as_str(), 9));
+    }
+}
+
+/// the select part of `prog_select` on a *client* node (clients get their own seeded runtime)
+async fn prog_select_client(l: Log) -> turmoil::Result {
+    let name = "cl".to_string();
+    let (tx1, mut rx1) = tokio::sync::mpsc::unbounded_channel::<u32>();
+    let (tx2, mut rx2) = tokio::sync::mpsc::unbounded_channel::<u32>();
+    for (i, tx) in [tx1, tx2].into_iter().enumerate() {
+        tokio::spawn(async move {
+            let mut k = 0;
+            loop {
+                k += 1;
+                let _ = tx.send(k * 10 + i as u32);
+                tokio::time::sleep(Duration::from_millis(2)).await;
+            }
+        });
+    }
+    loop {
+        tokio::select! {
+            Some(a) = rx1.recv() => log(&l, &name, format!("client branch 1 {a}")),
+            Some(b) = rx2.recv() => log(&l, &name, format!("client branch 2 {b}")),
+        }
     }
 }
 
@@ -505,6 +558,9 @@ pub fn run_trace(cfg: &Cfg, real_delay: bool) -> Vec<String> {
                     }
                 }
             });
+        }
+        if cfg.family == 2 {
+            sim.client("cl", prog_select_client(log.clone()));
         }
         if cfg.timeout_client {
             sim.client("never", async { std::future::pending::<turmoil::Result>().await });
